@@ -18,7 +18,7 @@ ID = 'C13'
 KINDS = [cg.BASIC, cg.COMPOUND, cg.ORTH]
 LEVELS = {
     'quick': [
-        {'name': 'L1-N3-M2-K2', 'N': 3, 'M': 2, 'K': 2, 'gks': 'alt', 'budget_s': 120},
+        {'name': 'L1-N3-M2-K2', 'N': 3, 'M': 2, 'K': 2, 'gks': 'alt', 'budget_s': 160},
         {'name': 'L2-N4-M1-K2', 'N': 4, 'M': 1, 'K': 2, 'budget_s': 60},
     ],
     'thorough': [
